@@ -114,6 +114,34 @@ def handle (j : Json) : Except String Json := do
       | none => outs := outs.push (S doc.render)
       | some o => doc := doc.apply o
     pure (Json.mkObj [("outs", Json.arr outs)])
+  | "rstfull" =>
+    -- the whole writer API (sections, doctests, tables); `raised[i]` says whether the i-th call raised
+    let hs ← getStrList j "headers"
+    let title ← getStr j "title"
+    let opsJ ← (← j.getObjVal? "ops").getArr?
+    match FDoc.new hs title with
+    | none => pure (Json.mkObj [("ctor", "raised")])
+    | some d0 =>
+      let mut doc : FDoc := d0
+      let mut outs : Array Json := #[]
+      let mut raised : Array Json := #[]
+      for oj in opsJ do
+        match ← parseFOp oj with
+        | none => outs := outs.push (S doc.render)
+        | some o =>
+          match doc.apply o with
+          | .ok d' => doc := d'; raised := raised.push false
+          | .error _ => raised := raised.push true
+      pure (Json.mkObj [("outs", Json.arr outs), ("raised", Json.arr raised)])
+  | "writetarget" =>
+    let arg : Option WriteArg := match j.getObjVal? "arg" with
+      | .ok (Json.str s) => some (.path s.toList)
+      | .ok (Json.bool true) => some .stream
+      | .ok (Json.num _) => some .other
+      | _ => none
+    pure (Json.mkObj [("target", match writeTarget arg with
+      | .valueError => Json.str "ValueError" | .typeError => Json.str "TypeError" | .streamWrite => Json.str "stream"
+      | .openPath p => Json.mkObj [("open", S p)])])
   | o => throw s!"unknown op {o}"
 
 partial def loop (hin : IO.FS.Stream) (hout : IO.FS.Stream) : IO Unit := do
